@@ -417,7 +417,9 @@ ObsCb(o, rec) ==
 
 Running(o) == o.ndisp - o.ncomp
 
-ReadyC(q) == {i \in DOMAIN q : q[i].left_us < 0}
+\* definitely ready when Features::get began (r0), as opposed to "ready by the time the record was
+\* written" (left_us < 0): the work-conservation rule needs the former, its excuses take the latter
+ReadyC(q) == {i \in DOMAIN q : q[i].r0}
 
 ObsGet(o, rec) ==
   LET batch == rec.batch
